@@ -60,6 +60,9 @@ type VC struct {
 	callN       int
 	safety      bool
 	specDepth   int
+	nsub        int
+	frameAllowed map[string][]string
+	globals     map[string]string
 	symSorts    map[string]string
 	symScan     int
 	ContractErrors []string
@@ -104,6 +107,7 @@ const prelude = `(declare-datatypes ((Slice 0)) (((mk_slice (s_base Int) (s_off 
 (assert (forall ((a Int) (i Int)) (! (and (<= 0 (str_at a i)) (< (str_at a i) 256)) :pattern ((str_at a i)))))
 (declare-fun bytes2str (Slice Int) Int)
 (declare-fun implements (Int Int) Bool)
+(declare-fun subtag (Int) Int)
 (declare-fun box_slice (Slice) Int)
 (declare-fun unbox_slice (Int) Slice)
 (assert (forall ((s Slice)) (! (= (unbox_slice (box_slice s)) s) :pattern ((box_slice s)))))
@@ -344,11 +348,9 @@ func (vc *VC) rangeFact(term string, t types.Type) string {
 	}
 	switch t.Underlying().(type) {
 	case *types.Slice:
-		return fmt.Sprintf("(and (<= 0 (s_len %s)) (<= (s_len %s) (s_cap %s)) (<= 0 (s_off %s)) (>= (s_base %s) 0) (=> (= (s_base %s) 0) (= (s_cap %s) 0)))", term, term, term, term, term, term, term)
-	case *types.Pointer, *types.Map, *types.Chan, *types.Signature:
-		return fmt.Sprintf("(>= %s 0)", term)
+		return fmt.Sprintf("(and (<= 0 (s_len %s)) (<= (s_len %s) (s_cap %s)) (<= 0 (s_off %s)) (=> (= (s_base %s) 0) (= (s_cap %s) 0)))", term, term, term, term, term, term)
 	case *types.Interface:
-		return fmt.Sprintf("(and (>= (i_type %s) 0) (>= (i_val %s) 0) (=> (= (i_type %s) 0) (= (i_val %s) 0)))", term, term, term, term)
+		return fmt.Sprintf("(and (>= (i_type %s) 0) (=> (= (i_type %s) 0) (= (i_val %s) 0)))", term, term, term)
 	}
 	return "true"
 }
@@ -553,6 +555,9 @@ type Addr struct {
 }
 
 func (vc *VC) read(st *State, a *Addr) string {
+	if a.Kind == "const" {
+		return a.Ref
+	}
 	h := vc.look(st, a.Var)
 	switch a.Kind {
 	case "field", "cell":
@@ -566,6 +571,10 @@ func (vc *VC) read(st *State, a *Addr) string {
 }
 
 func (vc *VC) write(st *State, a *Addr, v string) {
+	if a.Kind == "const" {
+		vc.warn("store to constglobal outside init in %s", vc.qname)
+		return
+	}
 	h := vc.look(st, a.Var)
 	sort := vc.hsort[a.Var]
 	switch a.Kind {
@@ -611,7 +620,9 @@ func (vc *VC) subFun(key string) string {
 		vc.declareFun(fn, []string{"Int"}, "Int")
 		inv := sym("subinv!" + key)
 		vc.declareFun(inv, []string{"Int"}, "Int")
-		vc.emit(fmt.Sprintf("(assert (forall ((r Int)) (! (and (= (%s (%s r)) r) (=> (> r 0) (> (%s r) 0))) :pattern ((%s r)))))", inv, fn, fn, fn))
+		vc.nsub++
+		// sub-object addresses: negative region, injective, tagged per field
+		vc.emit(fmt.Sprintf("(assert (forall ((r Int)) (! (and (= (%s (%s r)) r) (< (%s r) (- 1000000)) (= (subtag (%s r)) %d)) :pattern ((%s r)))))", inv, fn, fn, fn, vc.nsub, fn))
 	}
 	return fn
 }
@@ -699,4 +710,21 @@ func (vc *VC) projFun(T types.Type, i int) string {
 		vc.emit(fmt.Sprintf("(assert (= (%s 0) %s))", name, zeroOf(sort)))
 	}
 	return name
+}
+
+// globalRef is the address of a package-level aggregate variable: a distinct
+// negative constant (allocated objects are positive, nil is 0).
+func (vc *VC) globalRef(pkgPath, name string) string {
+	key := sym("gref!" + pkgPath + "." + name)
+	if vc.globals == nil {
+		vc.globals = map[string]string{}
+	}
+	if t, ok := vc.globals[key]; ok {
+		return t
+	}
+	t := fmt.Sprintf("(- %d)", len(vc.globals)+1)
+	vc.globals[key] = t
+	vc.declared[key] = true
+	vc.emit(fmt.Sprintf("(define-fun %s () Int %s)", key, t))
+	return key
 }
